@@ -8,17 +8,21 @@ from harness.fonts import build_font, gen_component_font, jsonable
 PID = "C04"
 LEVEL_TEXT = ("Proof + correspondence: Coq theorems for every advance sequence / glyph list: the hmtx table written with the "
               "pre-computed long-metric count decodes back to the same advances, that count is minimal, the hhea/vhea fields are "
-              "the extrema of their per-glyph formulas (0 without outlines), the font box encloses every glyph box. The model "
+              "the extrema of their per-glyph formulas (0 without outlines), the font box encloses every glyph box; the VORG default is a "
+              "most frequent vertical origin that occurs, reading the VORG table back gives every glyph its own origin, and no record "
+              "repeats the default (for every glyph list with distinct names). The model "
               "hhea_of/font_box/num_long is evaluated in Coq on the per-glyph metrics read from the TTFont *as returned by "
-              "ufo2ft* (before fontTools recomputes anything on save) and from the reloaded font. PARTIAL: byte-identical "
-              "save->reload->save, maxp, post names, VORG default and OS/2 first/last char index are fontTools-runtime facts and "
+              "ufo2ft* (before fontTools recomputes anything on save) and from the reloaded font; the Gallina VORG builder is compared with "
+              "the compiled VORG table and vmtx top side bearings (origin - yMax) for fonts with explicit public.verticalOrigin values. PARTIAL: byte-identical "
+              "save->reload->save, maxp, post names and OS/2 first/last char index are fontTools-runtime facts and "
               "are observed on the implementation, not modelled.")
 LEVEL_NOTE = ("Trusted: Coq kernel, hand model of the header arithmetic (correspondence-tested), harness; per-glyph boxes are taken "
               "from the compiled glyph data (glyf fields / charstring bounds).")
 TECHNIQUE = "Coq proofs (hmtx round trip, minimal long-metric count, extrema) + vm_compute check of the returned and reloaded header fields"
 IMPORTS = "From U2F Require Import Base.Prelude Metrics.Hmtx Metrics.Vorg."
 RULE = ("random fonts whose advance sequences are drawn from {all equal, equal tail, strictly descending, single glyph, zeros, "
-        "random}, with empty glyphs first/last, component-only glyphs, vertical metrics on/off, post format 2/3, TTF and OTF; "
+        "random}, with empty glyphs first/last, component-only glyphs, vertical metrics on/off (explicit public.verticalOrigin on some "
+        "glyphs, ties between origins), post format 2/3, TTF and OTF; "
         "thorough adds every advance sequence of length <= 6 over 3 values. Non-trivial = the long-metric count is strictly "
         "between 1 and the glyph count, or a glyph is empty.")
 ASSUMPTIONS = ["fontTools (de)serialisation is deterministic"]
